@@ -205,6 +205,46 @@ macro_rules
        simp only [isPushPost, isPushStore, isPopPost, Bool.toNat_false, Bool.toNat_true,
          Nat.add_zero] at hP hS hO))
 
+/-- A failed inner `Pop` (return false, or go to the `Gosched` of `PopWait(d<0)`) of a thread
+whose pc is not counted anywhere preserves the invariant. -/
+theorem inv_popFail {s : State} (hI : Inv s) {i : Nat} {th : Thread}
+    (hth : s.threads[i]? = some th)
+    (hpc : isPushPost th.pc = false ∧ isPushStore th.pc = false ∧ isPopPost th.pc = false)
+    (acc : Acc) : Inv (s.popFail i th acc).1 := by
+  obtain ⟨hht, hlen, hone, hcnt, hcr, hlocs⟩ := hI
+  have hfin := finish_not_counted th
+  have cP := fun th' => cnt_set (p := isPushPost) hth th'
+  have cS := fun th' => cnt_set (p := isPushStore) hth th'
+  have cO := fun th' => cnt_set (p := isPopPost) hth th'
+  unfold State.popFail
+  split
+  · have hP := cP { th with pc := .popYield }
+    have hS := cS { th with pc := .popYield }
+    have hO := cO { th with pc := .popYield }
+    simp only [hpc.1, hpc.2.1, hpc.2.2] at hP hS hO
+    simp only [isPushPost, isPushStore, isPopPost, Bool.toNat_false, Nat.add_zero] at hP hS hO
+    refine ⟨?_, ?_, ?_, ?_, ?_, ?_⟩ <;> simp only [State.setPc]
+    · exact hht
+    · omega
+    · omega
+    · omega
+    · exact hcr
+    · exact locals_update hlocs hth (Nat.le_refl _) (Nat.le_refl _) (Or.inl ⟨rfl, rfl⟩)
+        (by simp only [PcOk])
+  · have hP := cP th.finish
+    have hS := cS th.finish
+    have hO := cO th.finish
+    simp only [hpc.1, hpc.2.1, hpc.2.2, hfin.1, hfin.2.1, hfin.2.2, Bool.toNat_false,
+      Nat.add_zero] at hP hS hO
+    refine ⟨?_, ?_, ?_, ?_, ?_, ?_⟩ <;> simp only [State.fin]
+    · exact hht
+    · omega
+    · omega
+    · omega
+    · exact hcr
+    · exact locals_update hlocs hth (Nat.le_refl _) (Nat.le_refl _) (Or.inl ⟨rfl, rfl⟩)
+        (finish_ok _ _ _ _)
+
 set_option maxHeartbeats 1000000 in
 /-- Every step of every thread preserves the invariant (repaired statement order). -/
 theorem inv_step {s : State} (hI : Inv s) (i : Nat) : Inv (step .addThenStore s i).1 := by
@@ -331,15 +371,8 @@ theorem inv_step {s : State} (hI : Inv s) (i : Nat) : Inv (step .addThenStore s 
       dsimp only
       simp only [hpc, PcOk] at hloc
       split
-      · counts th.finish
-        refine ⟨?_, ?_, ?_, ?_, ?_, ?_⟩ <;> simp only [State.fin]
-        · exact hht
-        · omega
-        · omega
-        · omega
-        · exact hcr
-        · exact locals_update hlocs hth (Nat.le_refl _) (Nat.le_refl _) (Or.inl ⟨rfl, rfl⟩)
-            (finish_ok _ _ _ _)
+      · exact inv_popFail ⟨hht, hlen, hone, hcnt, hcr, hlocs⟩ hth
+          (by simp [hpc, isPushPost, isPushStore, isPopPost]) _
       · counts { th with pc := .popLoadNext h }
         refine ⟨?_, ?_, ?_, ?_, ?_, ?_⟩ <;> simp only [State.setPc]
         · exact hht
@@ -380,15 +413,8 @@ theorem inv_step {s : State} (hI : Inv s) (i : Nat) : Inv (step .addThenStore s 
         · exact hcr
         · exact locals_update hlocs hth (by omega) (Nat.le_refl _) (Or.inl ⟨rfl, rfl⟩)
             (by simp only [PcOk]; omega)
-      · counts th.finish
-        refine ⟨?_, ?_, ?_, ?_, ?_, ?_⟩ <;> simp only [State.fin]
-        · exact hht
-        · omega
-        · omega
-        · omega
-        · exact hcr
-        · exact locals_update hlocs hth (Nat.le_refl _) (Nat.le_refl _) (Or.inl ⟨rfl, rfl⟩)
-            (finish_ok _ _ _ _)
+      · exact inv_popFail ⟨hht, hlen, hone, hcnt, hcr, hlocs⟩ hth
+          (by simp [hpc, isPushPost, isPushStore, isPopPost]) _
     | popRead n =>
       dsimp only
       simp only [hpc, PcOk] at hloc
@@ -428,6 +454,17 @@ theorem inv_step {s : State} (hI : Inv s) (i : Nat) : Inv (step .addThenStore s 
       · exact hcr
       · exact locals_update hlocs hth (Nat.le_refl _) (Nat.le_refl _) (Or.inl ⟨rfl, rfl⟩)
           (finish_ok _ _ _ _)
+    | popYield =>
+      dsimp only
+      counts { th with pc := .popLoadHead }
+      refine ⟨?_, ?_, ?_, ?_, ?_, ?_⟩ <;> simp only [State.setPc]
+      · exact hht
+      · omega
+      · omega
+      · omega
+      · exact hcr
+      · exact locals_update hlocs hth (Nat.le_refl _) (Nat.le_refl _) (Or.inl ⟨rfl, rfl⟩)
+          (by simp only [PcOk])
     | lenLoad =>
       dsimp only
       counts th.finish
